@@ -461,8 +461,9 @@ def check_crash(case):
         nopen = sum(1 for p in points if p[0] == "open" and p[1] == "before")
         if blocks and after.stream() != before.stream() and nwrite == 0:
             raise RuntimeError("C19 harness: files changed but no write() went through bits.p2p.open — fault injection bypassed")
-        if rolls and nopen < 2:
-            raise RuntimeError("C19 harness: model rolled over but fewer than 2 open() calls were seen — fault injection bypassed")
+        if rolls and nopen < 1:
+            # (a batch whose first record rolls over needs no open() of the old file at all)
+            raise RuntimeError("C19 harness: model rolled over but no open() call was seen — fault injection bypassed")
         if any(p[1] == "partial" for p in points):
             cls.add("enumerated:mid-write-points")
         opens = [i for i, p in enumerate(points) if p[0] == "open" and p[1] == "after"]
